@@ -4,7 +4,9 @@ mutates test cases that call it, it never executes them).
 Shapes the test factory has to cope with: a class with a constructor taking another class and a
 primitive, methods (one returning another class of the module, one taking an enum and an optional
 float), an enum, a free function with a default / float parameter, a free function over a list, an
-un-annotated parameter (``Any``), class-level fields (an int and a list) and a property.
+un-annotated parameter (``Any``), class-level fields (an int and a list), a property, a function with
+positional-only / defaulted / ``*args`` / keyword-only / ``**kwargs`` parameters, one over dict / tuple / set and an
+un-annotated function (its result may be invoked by a follow-up statement).
 """
 import enum
 
@@ -62,3 +64,15 @@ def count_tags(tags: list, extra=None) -> int:
 
 def make_wheels(count: int) -> list[Wheel]:
     return [Wheel(i) for i in range(count)]
+
+
+def spread(first: int, /, second: str = "s", *rest: int, flag: bool = False, **extra: float) -> int:
+    return first + len(second) + len(rest) + len(extra)
+
+
+def lookup(table: dict[str, int], key: tuple[int, str], seen: set[int]) -> bool:
+    return key[1] in table and key[0] in seen
+
+
+def wrap(value, times=2):
+    return [value] * times
